@@ -13,7 +13,7 @@ from hypothesis import strategies as st
 from pbt import docs, jsongen as jg, refserver as ref, serverharness as sh, stdreg
 from pbt.runner import Check, Disc, Outcome
 
-from checks.c01 import doc_classes
+from checks.c01 import BATCH_LIMITS, batch_limit, doc_classes
 
 MAPPING_CLAUSES = ('nothing-vs-response', 'expected-array', 'response-count', 'expected-single-object', 'id',
                    'expected-success', 'expected-error', 'result', 'response-not-object')
@@ -80,8 +80,8 @@ class C02(Check):
             gen = docs.document(reg, kinds=['single'] * 2 + ['batch'] * 8,
                                 flavours=['valid'] * 12 + ['unknown-method'] * 2 + ['deviant', 'non-object'])
             return st.builds(
-                lambda text, beh, mbs: {'dispatcher': kind, 'max_batch_size': mbs, 'behaviours': beh, 'text': text},
-                gen, stdreg.behaviours(), st.sampled_from([None, None, None, 0, 1, 2, 3, 4, 5, 6]),
+                lambda text, beh, mbs: {'dispatcher': kind, 'max_batch_size': batch_limit(text, mbs), 'behaviours': beh, 'text': text},
+                gen, stdreg.behaviours(), st.sampled_from(BATCH_LIMITS + ['-1', '0', '+1']),
             )
         return st.one_of(for_kind('sync'), for_kind('async'))
 
